@@ -252,6 +252,7 @@ fn main() {
         "C10",
         "exhaustive (length x budget) grid for reads and writes, plus boundary/random lengths up to 65535+, budgets up to 2^32+, addresses near u64::MAX; a case is non-trivial when chunking succeeds with at least one chunk; distinct by (op,address,length,budget,data hash)",
     );
+    rep.parallel_model = true;
     let mut rng = Rng::new(args.seed);
 
     if let Some(path) = &args.replay {
